@@ -45,6 +45,7 @@ class C01(Prop):
         res = []
         for sig, txt in obs["server"]["races"] + obs["agent_races"]:
             res.append((sig, "the race detector reported a data race in repository code", {"report": txt}))
+        res += servsched.oracle_crash(obs["server"])
         res += servsched.oracle_ids(obs["server"])
         for s in obs["server"]["schedules"]:
             res += servsched.oracle_correlation(s)
